@@ -352,6 +352,9 @@ func c03Remove(r *Run, fn *ssa.Function) {
 			}
 			r.Check("removeExtension:second-occurrence-tested", n2 == 1, r.Where(eq[0]), "inside the loop a match tests whether an earlier match exists")
 		}
+	} else if len(eq) == 2 && ph != nil && okIdx && matchIdx != "" {
+		// the first match, then a second scan for another one behind it
+		c03FirstThenTail(r, fn, sts[0], ph, posLeaves, matchIdx, ext, eq, append([]ssa.Instruction{sts[0]}, successReturns(fn)...))
 	} else {
 		r.Fail("removeExtension:match", r.FnPos(fn), fmt.Sprintf("%d OID comparisons", len(eq)))
 	}
@@ -873,9 +876,17 @@ func c03Build(r *Run, fn *ssa.Function) {
 	// AKI decision table
 	var keyAtKey, issKey string
 	atoms := r.D.AtomsOf(fn)
-	for k, ci := range atoms {
+	// the position tested is that of a scan of the parsed TBS's own extension list for the AKI OID
+	// (other scans may record a position in the same way)
+	for _, k := range keysOf(atoms) {
+		ci := atoms[k]
 		if ci.Kind == "ord" && ci.A == "0" && glob("phi(-1|it@*)", ci.B) {
-			keyAtKey = k
+			pos := strings.TrimSuffix(strings.TrimPrefix(ci.B, "phi(-1|"), ")")
+			for _, eq := range CallsTo(fn, "(asn1.ObjectIdentifier).Equal") {
+				if r.D.D(CallArgs(eq)[1]) == "g:x509.OIDExtensionAuthorityKeyId" && isLoopPos(pos) && elemTerm(r, fn, CallArgs(eq)[0]) == tbs+".Extensions["+pos+"].Id" {
+					keyAtKey = k
+				}
+			}
 		}
 	}
 	// the pre-issuer's AKI value is the raw Value of that element of its extension list whose
@@ -887,13 +898,23 @@ func c03Build(r *Run, fn *ssa.Function) {
 			continue
 		}
 		src := elemTerm(r, fn, CallArgs(eq)[0])
-		if !glob("p1.Extensions[it@*].Id", src) || !isLoopPos(strings.TrimSuffix(strings.TrimPrefix(src, "p1.Extensions["), "].Id")) {
+		pos := strings.TrimSuffix(strings.TrimPrefix(src, "p1.Extensions["), "].Id")
+		if !glob("p1.Extensions[it@*].Id", src) || !isLoopPos(pos) {
 			continue
 		}
+		// taken inside the scan, when the comparison said "equal" …
 		parts := []string{strings.TrimSuffix(r.D.D(CallArgs(eq)[0]), ".Id") + ".Value", "nil"}
 		sort.Strings(parts)
 		k := "nil?phi(" + strings.Join(parts, "|") + ")"
 		if ci := atoms[k]; ci != nil && ci.Kind == "nil" {
+			issKey, issSrc = k, strings.TrimSuffix(src, ".Id")+".Value"
+		}
+		// … or behind it, from the element at the position the scan recorded (−1: none): the
+		// position is recorded exactly when the comparison said "equal"
+		parts = []string{"p1.Extensions[phi(-1|" + pos + ")].Value", "nil"}
+		sort.Strings(parts)
+		k = "nil?phi(" + strings.Join(parts, "|") + ")"
+		if ci := atoms[k]; ci != nil && ci.Kind == "nil" && c03RecordedIffMatched(r, fn, eq, "phi(-1|"+pos+")", pos) {
 			issKey, issSrc = k, strings.TrimSuffix(src, ".Id")+".Value"
 		}
 	}
@@ -928,9 +949,21 @@ func c03Build(r *Run, fn *ssa.Function) {
 		{"precert-aki-first,preissuer-lacks-aki", "=", "nil", outcome{removed: true}},
 	} {
 		s := Sigma{keyAtKey: row.keyAt, issKey: row.iss, "nil?p1": "non", "phi(false|true)": "T"}
+		// the decision starts at the first test of the position (the one every other test of it comes after)
 		var from *ssa.BasicBlock
-		for _, b := range r.blocksTesting(fn, func(ci *CondInfo) bool { return ci.Key == keyAtKey }) {
-			from = b
+		tests := r.blocksTesting(fn, func(ci *CondInfo) bool { return ci.Key == keyAtKey })
+		for _, b := range tests {
+			first := true
+			for _, o := range tests {
+				first = first && b.Dominates(o)
+			}
+			if first {
+				from = b
+			}
+		}
+		if from == nil {
+			r.Fail("BuildPrecertTBS:aki["+row.name+"]", r.FnPos(fn), "undecided: no first test of the AKI position")
+			continue
 		}
 		reach := r.D.Walk(fn, s, from, nil)
 		r.Valuations++
@@ -943,7 +976,7 @@ func c03Build(r *Run, fn *ssa.Function) {
 			}
 			d := r.D.D(st.Addr)
 			switch {
-			case glob("&("+tbs+".Extensions[phi(-1|it@*)].Value)", d):
+			case d == "&("+tbs+".Extensions[phi(-1|"+keyPos+")].Value)":
 				got.inplace = r.D.D(st.Val) == issVal
 				detail = append(detail, "ext[keyAt].Value ← "+r.D.D(st.Val))
 			case d == "&("+tbs+".Extensions)":
@@ -982,22 +1015,46 @@ func c03Siblings(r *Run) {
 	if a == nil || b == nil {
 		return
 	}
+	// what the leaf handed back holds — read off the object the success return yields, however
+	// it is put together (field assignments, one literal, a shared constructor)
+	successLeaf := func(fn *ssa.Function, s Sigma, key string) (*Reach, *ssa.Return) {
+		reach := r.D.Walk(fn, s, nil, nil)
+		r.Valuations++
+		var ret *ssa.Return
+		n := 0
+		for _, rt := range reachableReturns(fn, reach) {
+			if errKind(rt.Results[1]) == "nil" {
+				ret = rt
+				n++
+			}
+		}
+		if n != 1 {
+			r.Fail(key, r.FnPos(fn), fmt.Sprintf("undecided: %d success returns", n))
+			return nil, nil
+		}
+		return reach, ret
+	}
 	// embedded route
-	r.ExpectStores(b, "embedded:EntryType", "&(new:ct.TimestampedEntry#0.EntryType)", "1", 1)
-	r.ExpectStores(b, "embedded:Timestamp", "&(new:ct.TimestampedEntry#0.Timestamp)", "p1", 1)
-	r.ExpectStores(b, "embedded:PrecertEntry", "&(new:ct.TimestampedEntry#0.PrecertEntry)", "new:ct.PreCert#0", 1)
-	r.ExpectStores(b, "embedded:IssuerKeyHash", "&(new:ct.PreCert#0.IssuerKeyHash)", "sha256.Sum256(p0[1].RawSubjectPublicKeyInfo)", 1)
-	r.ExpectStores(b, "embedded:TBSCertificate", "&(new:ct.PreCert#0.TBSCertificate)", "x509.RemoveSCTList(p0[0].RawTBSCertificate)#0", 1)
-	r.ExpectStores(b, "embedded:Version", "&(new:ct.MerkleTreeLeaf#0.Version)", "0", 1)
-	r.ExpectStores(b, "embedded:LeafType", "&(new:ct.MerkleTreeLeaf#0.LeafType)", "0", 1)
-	r.ExpectStores(b, "embedded:entry", "&(new:ct.MerkleTreeLeaf#0.TimestampedEntry)", "new:ct.TimestampedEntry#0", 1)
+	if reach, ret := successLeaf(b, Sigma{}, "embedded:leaf"); ret != nil {
+		leaf := ret.Results[0]
+		r.ExpectBuilt(b, "embedded:EntryType", reach, ret, leaf, "TimestampedEntry.EntryType", "1")
+		r.ExpectBuilt(b, "embedded:Timestamp", reach, ret, leaf, "TimestampedEntry.Timestamp", "p1")
+		r.ExpectBuilt(b, "embedded:IssuerKeyHash", reach, ret, leaf, "TimestampedEntry.PrecertEntry.IssuerKeyHash", "sha256.Sum256(p0[1].RawSubjectPublicKeyInfo)")
+		r.ExpectBuilt(b, "embedded:TBSCertificate", reach, ret, leaf, "TimestampedEntry.PrecertEntry.TBSCertificate", "x509.RemoveSCTList(p0[0].RawTBSCertificate)#0")
+		r.ExpectBuilt(b, "embedded:Version", reach, ret, leaf, "Version", "0")
+		r.ExpectBuilt(b, "embedded:LeafType", reach, ret, leaf, "LeafType", "0")
+	}
 	r.ErrorsGate(b, "embedded:errors", "x509.RemoveSCTList", 1)
 	r.FailEdge(b, "embedded", EdgeSpec{Name: "no-issuer", Atom: ordAtomR("len(p0)", "2"), Bad: "<", Want: wantErr(true)})
 	// precert route (the pre-issuer correlation itself is C01.R7)
-	r.ExpectStores(a, "precert:IssuerKeyHash", "&(new:ct.PreCert#0.IssuerKeyHash)", "sha256.Sum256(phi(p0[1]|p0[2]).RawSubjectPublicKeyInfo)", 1)
-	r.ExpectStores(a, "precert:TBSCertificate", "&(new:ct.PreCert#0.TBSCertificate)", "x509.BuildPrecertTBS(p0[0].RawTBSCertificate, phi(nil|p0[1]))#0", 1)
-	r.ExpectStores(a, "precert:EntryType", "&(new:ct.MerkleTreeLeaf#0.TimestampedEntry.EntryType)", "1", 1)
-	r.ExpectStores(a, "precert:Timestamp", "&(new:ct.TimestampedEntry#0.Timestamp)", "p2", 1)
+	if reach, ret := successLeaf(a, Sigma{"ord(0, p1)": "<", "ord(1, p1)": "="}, "precert:leaf"); ret != nil {
+		leaf := ret.Results[0]
+		r.ExpectBuilt(a, "precert:IssuerKeyHash", reach, ret, leaf, "TimestampedEntry.PrecertEntry.IssuerKeyHash", "sha256.Sum256(phi(p0[1]|p0[2]).RawSubjectPublicKeyInfo)")
+		r.ExpectBuilt(a, "precert:TBSCertificate", reach, ret, leaf, "TimestampedEntry.PrecertEntry.TBSCertificate", "x509.BuildPrecertTBS(p0[0].RawTBSCertificate, phi(nil|p0[1]))#0")
+		// (the requested type is 1 on this walk)
+		r.ExpectBuilt(a, "precert:EntryType", reach, ret, leaf, "TimestampedEntry.EntryType", "1 || p1")
+		r.ExpectBuilt(a, "precert:Timestamp", reach, ret, leaf, "TimestampedEntry.Timestamp", "p2")
+	}
 	if sum := r.OneCall(a, "precert:Sum256", "sha256.Sum256"); sum != nil {
 		for _, c := range []struct{ pi, want string }{{"T", "p0[2].RawSubjectPublicKeyInfo"}, {"F", "p0[1].RawSubjectPublicKeyInfo"}} {
 			got := r.ArgUnder(a, sum, 0, Sigma{"ct.IsPreIssuer(p0[1])": c.pi})
@@ -1091,7 +1148,9 @@ func c03CreateLeaf(r *Run) {
 		eq := CallsTo(c, "bytes.Equal")
 		r.Check("ContainsSCT:compare", len(eq) == 1, r.FnPos(c), "one comparison per list element")
 		if len(eq) == 1 {
-			a0, a1 := r.D.D(CallArgs(eq[0])[0]), r.D.D(CallArgs(eq[0])[1])
+			// (the encoding may sit in a variable that is assigned once and only read afterwards,
+			// e.g. because a closure captures it)
+			a0, a1 := heldTerm(r, CallArgs(eq[0])[0]), heldTerm(r, CallArgs(eq[0])[1])
 			elem := func(v ssa.Value) bool {
 				if glob("p0.SCTList.SCTList[it@*].Val", r.D.D(v)) {
 					return true
@@ -1107,8 +1166,22 @@ func c03CreateLeaf(r *Run) {
 			}
 			okc := (a0 == "tls.Marshal(*p1)#0" && elem(CallArgs(eq[0])[1])) || (a1 == "tls.Marshal(*p1)#0" && elem(CallArgs(eq[0])[0]))
 			r.Check("ContainsSCT:operands", okc, r.Where(eq[0]), "compares "+a0+" with "+a1)
+			// once an element compared equal, every return that can still execute yields (true, nil):
+			// the result is read as it is on the walks that start at the comparison with the
+			// comparison true (a result variable merged from "found" and "not found" exits holds
+			// true on those walks exactly when every way from the match to the return sets it)
+			eqKey := ""
+			if eqv := eq[0].Value(); eqv != nil {
+				eqKey = r.D.Classify(eqv).Key
+			}
 			r.FailEdge(c, "ContainsSCT", EdgeSpec{Name: "found", Atom: boolAtom("bytes.Equal(*)"), Bad: "T", Want: func(r *Run, ret *ssa.Return) (bool, string) {
-				return r.D.D(ret.Results[0]) == "true" && errKind(ret.Results[1]) == "nil", "returns " + r.D.D(ret.Results[0])
+				d := r.D.D(ret.Results[0])
+				if d != "true" && eqKey != "" {
+					if u := resultAfter(r, c, ret, 0, eqKey, "T"); u != "" {
+						d = u
+					}
+				}
+				return d == "true" && errKind(ret.Results[1]) == "nil", "returns " + d
 			}})
 		}
 		r.ErrorsGate(c, "ContainsSCT:errors", "tls.Marshal", 1)
@@ -1124,7 +1197,7 @@ func c03SCTList(r *Run) {
 				r.Check("writer:list-type", a != nil && TypeName(a.Type().(*types.Pointer).Elem()) == "x509.SignedCertificateTimestampList", r.Where(ret), "builds a x509.SignedCertificateTimestampList")
 			}
 		}
-		r.ExpectStores(fn, "writer:element", "&(new:x509.SerializedSCT#0.Val)", "tls.Marshal(*p0[it@*])#0", 1)
+		c03WriterElements(r, fn)
 		r.ErrorsGate(fn, "writer:errors", "tls.Marshal", 1)
 	}
 	if fn := r.Fn("submission.ASN1MarshalSCTs"); fn != nil {
@@ -1135,7 +1208,7 @@ func c03SCTList(r *Run) {
 			r.ExpectArg(c, "writer:asn1.octets", 0, "tls.Marshal(*)#0")
 			r.Check("writer:asn1.type", TypeName(CallArgs(c)[0].(*ssa.MakeInterface).X.Type()) == "[]byte", r.Where(c), "the TLS-encoded list is wrapped as an ASN.1 OCTET STRING ([]byte)")
 		}
-		r.ErrorsGate(fn, "writer:errors", "*Marshal*", 3)
+		r.ErrorsGateTail(fn, "writer:errors", "*Marshal*", 3)
 	}
 	// reader: parseCertificate decodes Value → []byte (RawSCT) → SignedCertificateTimestampList
 	if fn := r.Fn("x509.parseCertificate"); fn != nil {
